@@ -313,12 +313,15 @@ def plan(run, rng):
         for i, sub in enumerate(subsets):
             # a deviation must be visible: at least one shell type on which the vendor deviates (else the file is standard)
             for fmt in ("molden", "molekel"):
-                unit = "AU" if (i % 2 == 0) else "Angs"
-                thr = [1e-4, 1e-5, 1e-3][i % 3]
-                tnames = list(sub) + ([rng.choice(sub)] if rng.random() < 0.4 else [])
-                if fmt == "molekel" and any(t in ("hp",) for t in tnames):
-                    continue
-                tasks.append((vendor, tnames, fmt, unit, bool(i % 2), thr, rng.randint(0, 10**9), False))
+                combos = [("AU" if (i % 2 == 0) else "Angs", bool(i % 2))]
+                if run.thorough():
+                    combos = [(u, r) for u in ("AU", "Angs") for r in (False, True)]
+                for k, (unit, unres) in enumerate(combos):
+                    thr = [1e-4, 1e-5, 1e-3][(i + k) % 3]
+                    tnames = list(sub) + ([rng.choice(sub)] if rng.random() < 0.4 else [])
+                    if fmt == "molekel" and any(t in ("hp",) for t in tnames):
+                        continue
+                    tasks.append((vendor, tnames, fmt, unit, unres, thr, rng.randint(0, 10**9), False))
     # files with orbital coefficients printed to three decimals, loaded with the correspondingly wider norm_threshold the
     # loader offers for this purpose: the same vendor must be recognised
     for vendor, allowed in ALLOWED.items():
@@ -327,7 +330,7 @@ def plan(run, rng):
             if any(t == "hp" for t in sub):
                 continue
             tasks.append((vendor, list(sub) + ["s"], "molden", "AU", bool(i % 2), 2e-2, rng.randint(0, 10**9), False, 3))
-    for i in range(run.pick(6, 60)):
+    for i in range(run.pick(6, 200)):
         vendor = rng.choice(["standard", "orca", "turbomole"])
         sub = rng.sample(ALLOWED[vendor], 2)
         if any(a in sub and b in sub for a, b in (("dc", "dp"), ("fc", "fp"), ("gc", "gp"))):
